@@ -107,6 +107,10 @@ pub fn gen_mtime(t: &mut Tape, now_ns: u128) -> Option<u128> {
         9 => (now_ns / NS * NS) as i128, // start of the current second
         _ => t.below((now_ns / NS).max(1) as u64) as i128 * NS as i128,
     };
+    if t.chance(1, 40) {
+        // a garbage mtime far beyond year 9999: Last-Modified is clamped to Date, so serve copes
+        return Some((MAX_SECS as u128 + 1 + t.draw(1_000_000) as u128 * 86_400) * NS + t.draw(1_000_000_000) as u128);
+    }
     let base = base.clamp(0, (MAX_SECS as i128 - 1) * NS as i128) as u128;
     let secs = base / NS;
     let frac = match t.draw(6) {
@@ -126,6 +130,13 @@ const HNAMES: &[&str] = &[
     "content-language",
     "x-long-header-name-abcdefghijklmnopqrstuvwxyz-0123456789",
     "cache-tag",
+    // what real applications (and this crate's own dir module) put there as well
+    "content-encoding",
+    "vary",
+    "cache-control",
+    "expires",
+    "content-location",
+    "content-disposition",
 ];
 const HVALUES: &[&str] = &[
     "application/octet-stream",
@@ -134,6 +145,9 @@ const HVALUES: &[&str] = &[
     "text/html; charset=utf-8",
     "0123456789012345678901234567890123456789012345678901234567890123456789012345678901234567890123456789",
     "a: b",
+    "gzip",
+    "accept-encoding",
+    "max-age=60, public",
 ];
 
 pub fn gen_headers(t: &mut Tape) -> Vec<(String, Vec<u8>)> {
@@ -473,6 +487,9 @@ pub fn gen_request(t: &mut Tape, meta: &Meta, now_ns: u128, k: &ReqKnobs) -> Req
         let n = if k.hostile && t.chance(1, 24) {
             // very long range sets (spilling any inline storage)
             40 + t.draw(260)
+        } else if k.ranges == 2 && t.chance(1, 24) {
+            // a part count taken from the source dictionary (a cap such as 1 << 8 is hit on purpose)
+            crate::dict::pick_in(t.draw(1 << 16), 3, 400).unwrap_or(9) as u32
         } else if k.ranges == 2 {
             2 + t.draw(if crate::core::deep() { 14 } else { 7 })
         } else {
@@ -491,7 +508,8 @@ pub fn gen_request(t: &mut Tape, meta: &Meta, now_ns: u128, k: &ReqKnobs) -> Req
                     _ => Spec::FromTo(0, 0),
                 },
             };
-            specs.insert(t.draw(specs.len() as u32 + 1) as usize, extra);
+            let at = if t.chance(1, 2) { i + 1 } else { t.draw(specs.len() as u32 + 1) as usize };
+            specs.insert(at, extra);
         }
         p.headers.push(("range".into(), render_specs(t, &specs)));
         p.specs = Some(specs);
